@@ -1,4 +1,5 @@
 -- root of the library: everything `./check --setup` builds up front
+import MwVerif.Props.C10
 import MwVerif.Props.C12
 import MwVerif.Props.C13
 import MwVerif.Props.C14
